@@ -177,15 +177,11 @@ theorem layout_nulfree (st : EncState) (size : StrSize) (furibug : Bool) (s : By
   simp only [strLayoutOk, Bool.and_eq_true, Bool.not_eq_true'] at h
   exact h.1
 
-theorem layout_nulless_fb (st : EncState) (furibug : Bool) (s : Bytes) (len : Nat)
-    (h : strLayoutOk st (.fixed len true) furibug s = true) : fbOf st furibug = [] := by
-  simp only [strLayoutOk, fbOf] at *
-  cases furibug with
-  | false => rfl
-  | true =>
-    simp at h
-    have := h.2.2
-    simpa using this
+theorem attrs_nulless_fb (st : EncState) (furibug : Bool) (len : Nat) (mask : ByteMask)
+    (h : Enc.strAttrsOk (.str (.fixed len true) mask furibug) = true) : fbOf st furibug = [] := by
+  simp only [Enc.strAttrsOk, Bool.true_and, Bool.not_eq_true'] at h
+  subst h
+  rfl
 
 theorem take_left' (a b : Bytes) (n : Nat) (h : a.length = n) : (a ++ b).take n = a := by
   subst h; simp
@@ -194,6 +190,7 @@ theorem drop_left' (a b : Bytes) (n : Nat) (h : a.length = n) : (a ++ b).drop n 
 
 theorem decodeStr_encodeStr (st : EncState) (size : StrSize) (mask : ByteMask) (furibug : Bool)
     (s tl out : Bytes) (st2 : EncState)
+    (hattr : Enc.strAttrsOk (.str size mask furibug) = true)
     (hok : strLayoutOk st size furibug s = true)
     (he : encodeStr st size mask furibug s = .ok (out, st2))
     (htl : ∀ bs, size = .toBlobEnd bs → tl = []) :
@@ -214,7 +211,7 @@ theorem decodeStr_encodeStr (st : EncState) (size : StrSize) (mask : ByteMask) (
     have hun : applyMask mask (applyMask mask e3) = s ++ nulOf size ++ fbOf st furibug ++ zeros k := by
       rw [xor_involutive, hk, hb]
     have hq : ∀ len, size = .fixed len true → fbOf st furibug = [] := by
-      intro len hsz; subst hsz; exact layout_nulless_fb st furibug s len hok
+      intro len hsz; subst hsz; exact attrs_nulless_fb st furibug len mask hattr
     have htrim := trim_decoded st size furibug s k hs hq
     obtain ⟨hout, _⟩ := he
     rcases size with ⟨len, nl⟩ | bs | bs
@@ -240,7 +237,7 @@ theorem decodeStr_encodeStr (st : EncState) (size : StrSize) (mask : ByteMask) (
       have hl4 : (leBytes 4 e3.length).length = 4 := leBytes_length _ _
       have hbound : e3.length < 4294967296 := by
         simp only [strLayoutOk, Bool.and_eq_true, decide_eq_true_eq] at hok
-        have h2 := hok.2.2
+        have h2 := hok.2
         simp only at hlen
         have : e2.length = s.length + 1 + (fbOf st furibug).length := by
           rw [hb]; simp [nulOf]; omega
@@ -274,6 +271,7 @@ theorem arg0_roundtrip (v : Int) (h : fitsInt .w2 true v = true) :
   simp [fitsInt, toSigned, wrapTo] at * ; omega
 
 theorem encodeStr_ok (st : EncState) (size : StrSize) (mask : ByteMask) (furibug : Bool) (s : Bytes)
+    (hattr : Enc.strAttrsOk (.str size mask furibug) = true)
     (hok : strLayoutOk st size furibug s = true) :
     ∃ r, encodeStr st size mask furibug s = .ok r := by
   have hb := strBody_eq st size furibug s
@@ -286,30 +284,29 @@ theorem encodeStr_ok (st : EncState) (size : StrSize) (mask : ByteMask) (furibug
   have hp : ∃ e3, strPad size e2 = .ok e3 := by
     rcases size with ⟨len, nl⟩ | bs | bs
     · simp only [strLayoutOk, Bool.and_eq_true, decide_eq_true_eq] at hok
-      have h2 := hok.2.1
+      have h2 := hok.2
       have : e2.length = s.length + (if nl = true then 0 else 1) + (fbOf st furibug).length := by
         rw [hb]; cases nl <;> simp [nulOf] <;> omega
       have hle : ¬ (e2.length > len) := by omega
       refine ⟨e2 ++ zeros (len - e2.length), ?_⟩
       simp only [strPad, hle, if_false]
-    · simp only [strLayoutOk, Bool.and_eq_true, decide_eq_true_eq] at hok
-      have : bs ≠ 0 := by omega
+    · have : bs ≠ 0 := by simpa [Enc.strAttrsOk] using hattr
       simp only [strPad, this, if_false]
       split <;> exact ⟨_, rfl⟩
-    · simp only [strLayoutOk, Bool.and_eq_true, decide_eq_true_eq] at hok
-      have : bs ≠ 0 := by omega
+    · have : bs ≠ 0 := by simpa [Enc.strAttrsOk] using hattr
       simp only [strPad, this, if_false]
       split <;> exact ⟨_, rfl⟩
   obtain ⟨e3, hp⟩ := hp
   simp only [hp]
   exact ⟨_, rfl⟩
 
-theorem encodeOne_ok (st : EncState) (e : Enc) (a : Arg) (hok : argOk st e a = true) :
+theorem encodeOne_ok (st : EncState) (e : Enc) (a : Arg) (hattr : e.strAttrsOk = true)
+    (hok : argOk st e a = true) :
     ∃ r, encodeOne st e a = .ok r := by
   cases e with
   | int w signed arg0 imm =>
     cases arg0 <;> cases a <;> simp [argOk] at hok
-    exact ⟨(_, _), by simp [encodeOne, expectInt]; exact ⟨rfl, rfl⟩⟩
+    exact ⟨(_, _), by simp [encodeOne, expectInt, hok.1.1]; exact ⟨rfl, rfl⟩⟩
   | jumpOffset => cases a <;> simp [argOk] at hok; exact ⟨(_, _), by simp [encodeOne, expectInt]; exact ⟨rfl, rfl⟩⟩
   | jumpTime => cases a <;> simp [argOk] at hok; exact ⟨(_, _), by simp [encodeOne, expectInt]; exact ⟨rfl, rfl⟩⟩
   | padding w => cases a <;> simp [argOk] at hok
@@ -320,7 +317,7 @@ theorem encodeOne_ok (st : EncState) (e : Enc) (a : Arg) (hok : argOk st e a = t
     | float b r => simp [argOk] at hok
     | str s =>
       simp only [argOk] at hok
-      obtain ⟨r, hr⟩ := encodeStr_ok st size mask furibug s hok
+      obtain ⟨r, hr⟩ := encodeStr_ok st size mask furibug s hattr hok
       exact ⟨r, by simp [encodeOne, expectString, hr]⟩
 
 /-- a register argument is only `ArgsOk` where the encoding can be a register -/
@@ -336,6 +333,7 @@ theorem argOk_reg (st : EncState) (e : Enc) (a : Arg) (hok : argOk st e a = true
 
 theorem decodeOne_encodeOne (st : EncState) (e : Enc) (a : Arg) (bytes tl : Bytes) (st1 : EncState)
     (arg0 : Option Int)
+    (hattr : e.strAttrsOk = true)
     (hok : argOk st e a = true)
     (he : encodeOne st e a = .ok (bytes, st1))
     (htl : ∀ bs m f, e = .str (.toBlobEnd bs) m f → tl = []) :
@@ -344,7 +342,8 @@ theorem decodeOne_encodeOne (st : EncState) (e : Enc) (a : Arg) (bytes tl : Byte
   | int w signed a0 imm =>
     cases a0 <;> cases a <;> simp [argOk] at hok
     rename_i v reg
-    simp only [encodeOne, expectInt, Outcome.ok.injEq, Prod.mk.injEq] at he
+    simp only [encodeOne, expectInt, hok.1.1, Bool.not_true, Bool.and_false, Bool.false_eq_true, if_false,
+      Outcome.ok.injEq, Prod.mk.injEq] at he
     obtain ⟨hb, _⟩ := he
     subst hb
     have hl : (leBytes w.bytes (wrapTo w.bytes v)).length = w.bytes := leBytes_length _ _
@@ -391,7 +390,7 @@ theorem decodeOne_encodeOne (st : EncState) (e : Enc) (a : Arg) (bytes tl : Byte
     | str s =>
       simp only [argOk] at hok
       simp only [encodeOne, expectString] at he
-      have := decodeStr_encodeStr st size mask furibug s tl bytes st1 hok he
+      have := decodeStr_encodeStr st size mask furibug s tl bytes st1 hattr hok he
         (by intro bs hsz; exact htl bs mask furibug (by rw [hsz]))
       simp [decodeOne, this]
 
@@ -414,34 +413,40 @@ theorem zeros_leNat (n : Nat) : leNat (zeros n) = 0 := by
   | zero => rfl
   | succ n ih => simp [zeros, List.replicate_succ, leNat] at *; omega
 
-/-- The loop lemma: under `argsOkLoop` the encoder succeeds without warnings, the mask fits in one
-bit per non-padding parameter, and the decoder loop reads the blob back to exactly the arguments
-(padding values 0), consuming all bytes and all mask bits. -/
-theorem decLoop_encLoop (es : Abi) : ∀ (args : List Arg) (st : EncState),
-    (∀ e ∈ es, e.isArg0 = false) → blobEndLast es = true → argsOkLoop st es args = true →
-    ∃ o, encLoop es args st = .ok o ∧ o.warnings = [] ∧
+/-- The loop lemma: under `argsOkLoop`, with mask bits left for every remaining parameter, the
+encoder succeeds without warnings, the mask fits in one bit per non-padding parameter, and the
+decoder loop reads the blob back to exactly the arguments (padding values 0), consuming all bytes
+and all mask bits. -/
+theorem decLoop_encLoop (es : Abi) : ∀ (k : Nat) (args : List Arg) (st : EncState),
+    k + (es.filter Enc.contributes).length ≤ 16 →
+    (∀ e ∈ es, e.isArg0 = false) → (∀ e ∈ es, e.strAttrsOk = true) →
+    blobEndLast es = true → argsOkLoop st es args = true →
+    ∃ o, encLoop k es args st = .ok o ∧ o.warnings = [] ∧
       o.mask < 2 ^ (es.filter Enc.contributes).length ∧
       ((∀ a ∈ args, a.isReg = false) → o.mask = 0) ∧
       ∀ arg0, ∃ full, decLoop es o.blob o.mask arg0 = .ok ⟨full, [], [], 0, arg0⟩ ∧
         dropPadding es full = args ∧ nonzeroPadding es full = false := by
   induction es with
   | nil =>
-    intro args st _ _ hok
+    intro k args st _ _ _ _ hok
     simp only [argsOkLoop, List.isEmpty_iff] at hok
     subst hok
     exact ⟨⟨[], 0, [], st⟩, rfl, rfl, by simp, fun _ => rfl, fun arg0 => ⟨[], rfl, rfl, rfl⟩⟩
   | cons e es ih =>
-    intro args st hna0 hbe hok
+    intro k args st hk hna0 hattr hbe hok
     have hna0' : ∀ e' ∈ es, e'.isArg0 = false := fun e' he' => hna0 e' (List.mem_cons_of_mem _ he')
+    have hattr' : ∀ e' ∈ es, e'.strAttrsOk = true := fun e' he' => hattr e' (List.mem_cons_of_mem _ he')
     simp only [blobEndLast, Bool.and_eq_true] at hbe
     by_cases hp : e.isPadding = true
     · -- padding: zeros, no argument consumed
+      have hc : Enc.contributes e = false := by simp [Enc.contributes, hp]
       simp only [argsOkLoop, hp, if_true] at hok
-      obtain ⟨o, ho, hw, hm, hz, hd⟩ := ih args st hna0' hbe.2 hok
+      have hk' : k + (es.filter Enc.contributes).length ≤ 16 := by
+        simpa [List.filter_cons, hc] using hk
+      obtain ⟨o, ho, hw, hm, hz, hd⟩ := ih k args st hk' hna0' hattr' hbe.2 hok
       refine ⟨{ o with blob := zeros e.padWidth ++ o.blob }, ?_, hw, ?_, hz, ?_⟩
       · simp only [encLoop, hp, if_true, ho]
-      · have : Enc.contributes e = false := by simp [Enc.contributes, hp]
-        simpa [List.filter_cons, this] using hm
+      · simpa [List.filter_cons, hc] using hm
       · intro arg0
         obtain ⟨full, hdec, hdp, hnz⟩ := hd arg0
         refine ⟨.int 0 false :: full, ?_, ?_, ?_⟩
@@ -454,14 +459,21 @@ theorem decLoop_encLoop (es : Abi) : ∀ (args : List Arg) (st : EncState),
         · simp only [nonzeroPadding, hp, hnz]; simp
     · -- a real parameter
       have hp' : e.isPadding = false := by simpa using hp
+      have hc : Enc.contributes e = true := by simp [Enc.contributes, hp']
+      have hk1 : k < 16 ∧ (k + 1) + (es.filter Enc.contributes).length ≤ 16 := by
+        simp only [List.filter_cons, hc, if_true, List.length_cons] at hk
+        omega
       cases args with
       | nil => simp [argsOkLoop, hp'] at hok
       | cons a as =>
         simp only [argsOkLoop, hp', Bool.false_eq_true, if_false, Bool.and_eq_true] at hok
         obtain ⟨hoka, hokr⟩ := hok
-        obtain ⟨⟨bytes, st1⟩, he⟩ := encodeOne_ok st e a hoka
+        obtain ⟨⟨bytes, st1⟩, he⟩ := encodeOne_ok st e a (hattr e (List.mem_cons_self ..)) hoka
         rw [stateAfter_eq st e a bytes st1 he] at hokr
-        obtain ⟨o, ho, hw, hm, hz, hd⟩ := ih as st1 hna0' hbe.2 hokr
+        obtain ⟨o, ho, hw, hm, hz, hd⟩ := ih (k + 1) as st1 hk1.2 hna0' hattr' hbe.2 hokr
+        have hfull : (a.isReg && decide (16 ≤ k)) = false := by
+          have : ¬ (16 ≤ k) := by omega
+          simp [this]
         have hwarn : (e.alwaysImmediate && a.isReg) = false := by
           cases hr : a.isReg with
           | false => simp
@@ -471,9 +483,8 @@ theorem decLoop_encLoop (es : Abi) : ∀ (args : List Arg) (st : EncState),
           | false => simp
           | true => simp [argOk_reg st e a hoka hr]
         refine ⟨⟨bytes ++ o.blob, (if a.isReg = true then 1 else 0) + 2 * o.mask, [], o.st⟩, ?_, rfl, ?_, ?_, ?_⟩
-        · simp only [encLoop, hp', Bool.false_eq_true, if_false, he, ho, hwarn, hbit, hw, List.append_nil]
-        · have : Enc.contributes e = true := by simp [Enc.contributes, hp']
-          simp only [List.filter_cons, this, if_true, List.length_cons, Nat.pow_succ]
+        · simp only [encLoop, hp', Bool.false_eq_true, if_false, hfull, he, ho, hwarn, hbit, hw, List.append_nil]
+        · simp only [List.filter_cons, hc, if_true, List.length_cons, Nat.pow_succ]
           split <;> omega
         · intro hall
           have h1 : a.isReg = false := hall a (List.mem_cons_self ..)
@@ -496,11 +507,10 @@ theorem decLoop_encLoop (es : Abi) : ∀ (args : List Arg) (st : EncState),
               | true => simp [argOk_reg st e a hoka hr]
             have hdiv : ((if a.isReg = true then 1 else 0) + 2 * o.mask) / 2 = o.mask := by
               split <;> omega
-            have h1 := decodeOne_encodeOne st e a bytes o.blob st1 arg0 hoka he htl
+            have h1 := decodeOne_encodeOne st e a bytes o.blob st1 arg0 (hattr e (List.mem_cons_self ..)) hoka he htl
             simp only [decLoop, hp', Bool.false_eq_true, if_false, hreg, h1, hdiv, hdec, List.nil_append]
           · simp only [dropPadding, hp', Bool.false_eq_true, if_false, hdp]
           · simp only [nonzeroPadding, hp', Bool.false_and, Bool.false_or, hnz]
-
 
 theorem blobEndLast_of_dropLast (abi : Abi) (h : abi.dropLast.any Enc.isBlobEnd = false) :
     blobEndLast abi = true := by
@@ -517,7 +527,7 @@ theorem blobEndLast_of_dropLast (abi : Abi) (h : abi.dropLast.any Enc.isBlobEnd 
 theorem validAbi_blobEndLast (abi : Abi) (h : validAbi abi = true) : blobEndLast abi = true := by
   apply blobEndLast_of_dropLast
   simp only [validAbi, Bool.and_eq_true, Bool.not_eq_true'] at h
-  have h5 := h.1.2
+  have h5 := h.1.1.2
   rw [List.drop_one, List.tail_reverse, List.any_reverse] at h5
   rw [← h5]
   congr 1
@@ -525,13 +535,17 @@ theorem validAbi_blobEndLast (abi : Abi) (h : validAbi abi = true) : blobEndLast
 theorem validAbi_arg0_tail (abi : Abi) (h : validAbi abi = true) :
     ∀ e ∈ abi.drop 1, e.isArg0 = false := by
   simp only [validAbi, Bool.and_eq_true, Bool.not_eq_true'] at h
-  have h4 := h.1.1.2
+  have h4 := h.1.1.1.2
   intro e he
   cases hx : e.isArg0 with
   | false => rfl
   | true =>
     have : (abi.drop 1).any Enc.isArg0 = true := List.any_eq_true.mpr ⟨e, he, hx⟩
     rw [this] at h4; cases h4
+
+theorem validAbi_strAttrs (abi : Abi) (h : validAbi abi = true) : ∀ e ∈ abi, e.strAttrsOk = true := by
+  simp only [validAbi, Bool.and_eq_true] at h
+  exact List.all_eq_true.mp h.2
 
 /-- what `decompileCall` does with the result of the decoder loop -/
 theorem decompileCall_of_decLoop (abi : Abi) (raw : Raw) (full args : List Arg) (a0 : Option Int)
@@ -587,6 +601,10 @@ theorem take_drop_bytes (rest : Bytes) (n : Nat) (h : ¬ rest.length < n) :
   · have := leBytes_leNat (rest.take n); rwa [hl] at this
   · simp
 
+theorem fits_of_read (w : IntW) (signed : Bool) (x : Nat) (hx : x < 256 ^ w.bytes) :
+    (w != .w4 && !fitsInt w signed (if signed then toSigned w.bytes x else toSigned 4 x)) = false := by
+  cases w <;> cases signed <;> simp [fitsInt, toSigned, IntW.bytes] at * <;> (try split) <;> omega
+
 /-- converse of `decodeOne_encodeOne` for the fixed-width encodings: what was read is what
 re-encoding the decoded value writes -/
 theorem encodeOne_decodeOne (st : EncState) (e : Enc) (rest : Bytes) (r : Bool) (a0 : Option Int)
@@ -611,7 +629,8 @@ theorem encodeOne_decodeOne (st : EncState) (e : Enc) (rest : Bytes) (r : Bool) 
         have hx : leNat (rest.take iw.bytes) < 256 ^ iw.bytes := by
           have := leNat_lt (rest.take iw.bytes); rwa [hl] at this
         refine ⟨rfl, rfl, rfl, rest.take iw.bytes, h2, ?_⟩
-        simp only [encodeOne, expectInt, wrap_of_read iw signed _ hx, h1]
+        simp only [encodeOne, expectInt, fits_of_read iw signed _ hx, Bool.false_eq_true, if_false,
+          wrap_of_read iw signed _ hx, h1]
   | jumpOffset =>
     simp only [decodeOne] at hd
     split at hd
@@ -656,21 +675,22 @@ theorem encodeOne_decodeOne (st : EncState) (e : Enc) (rest : Bytes) (r : Bool) 
 
 
 /-- converse loop lemma -/
-theorem encLoop_decLoop (es : Abi) : ∀ (rest : Bytes) (mask : Nat) (a0 : Option Int) (o : DecOut) (st : EncState),
+theorem encLoop_decLoop (es : Abi) : ∀ (k : Nat) (rest : Bytes) (mask : Nat) (a0 : Option Int) (o : DecOut) (st : EncState),
+    k + (es.filter Enc.contributes).length ≤ 16 →
     strFree es = true → noArg0 es = true → decLoop es rest mask a0 = .ok o →
     nonzeroPadding es o.args = false → maskOk es mask = true →
     o.warnings = [] ∧ o.mask = 0 ∧ o.arg0 = a0 ∧
-    ∃ blob, rest = blob ++ o.rest ∧ encLoop es (dropPadding es o.args) st = .ok ⟨blob, mask, [], st⟩ := by
+    ∃ blob, rest = blob ++ o.rest ∧ encLoop k es (dropPadding es o.args) st = .ok ⟨blob, mask, [], st⟩ := by
   induction es with
   | nil =>
-    intro rest mask a0 o st _ _ hd _ hm
+    intro k rest mask a0 o st _ _ _ hd _ hm
     simp only [decLoop, Outcome.ok.injEq] at hd
     subst hd
     simp only [maskOk, beq_iff_eq] at hm
     subst hm
     exact ⟨rfl, rfl, rfl, [], rfl, rfl⟩
   | cons e es ih =>
-    intro rest mask a0 o st hsf hna hd hnz hm
+    intro k rest mask a0 o st hk hsf hna hd hnz hm
     simp only [strFree, noArg0, List.all_cons, Bool.and_eq_true, Bool.not_eq_true'] at hsf hna
     have hsf' : strFree es = true := hsf.2
     have hna' : noArg0 es = true := hna.2
@@ -684,7 +704,9 @@ theorem encLoop_decLoop (es : Abi) : ∀ (rest : Bytes) (mask : Nat) (a0 : Optio
           rw [h2] at hd; simp only [Outcome.ok.injEq] at hd; subst hd
           simp only [nonzeroPadding, hp, Bool.true_and, Bool.or_eq_false_iff, bne_eq_false_iff_eq] at hnz
           simp only [maskOk, hp, if_true] at hm
-          obtain ⟨hw, hm0, ha0, blob, hrest, henc⟩ := ih _ _ _ o2 st hsf' hna' h2 hnz.2 hm
+          have hc : Enc.contributes e = false := by simp [Enc.contributes, hp]
+          have hk' : k + (es.filter Enc.contributes).length ≤ 16 := by simpa [List.filter_cons, hc] using hk
+          obtain ⟨hw, hm0, ha0, blob, hrest, henc⟩ := ih k _ _ _ o2 st hk' hsf' hna' h2 hnz.2 hm
           have hzero : toSigned 4 (leNat (rest.take e.padWidth)) = 0 := by
             have := hnz.1; simpa using this
           have hl : (rest.take e.padWidth).length = e.padWidth := by simp; omega
@@ -718,10 +740,16 @@ theorem encLoop_decLoop (es : Abi) : ∀ (rest : Bytes) (mask : Nat) (a0 : Optio
           simp only [maskOk, hp', Bool.false_eq_true, if_false, Bool.and_eq_true] at hm
           obtain ⟨hw1, ha01, hreg, bytes, hrest, henc1⟩ := encodeOne_decodeOne st e rest _ a0 a w rest1 a01 hsf.1 hna.1 hp' h1
           subst hw1 ha01
-          obtain ⟨hw, hm0, ha0, blob, hrest2, henc⟩ := ih _ _ _ o2 st hsf' hna' h2 hnz hm.2
+          have hc : Enc.contributes e = true := by simp [Enc.contributes, hp']
+          have hk1 : k < 16 ∧ (k + 1) + (es.filter Enc.contributes).length ≤ 16 := by
+            simp only [List.filter_cons, hc, if_true, List.length_cons] at hk; omega
+          have hfull : ∀ b : Bool, (b && decide (16 ≤ k)) = false := by
+            intro b; have : ¬ (16 ≤ k) := by omega
+            simp [this]
+          obtain ⟨hw, hm0, ha0, blob, hrest2, henc⟩ := ih (k + 1) _ _ _ o2 st hk1.2 hsf' hna' h2 hnz hm.2
           refine ⟨by simpa using hw, hm0, ha0, bytes ++ blob, ?_, ?_⟩
           · rw [hrest, hrest2]; simp
-          · simp only [dropPadding, hp', Bool.false_eq_true, if_false, encLoop, henc1, henc, hreg]
+          · simp only [dropPadding, hp', Bool.false_eq_true, if_false, encLoop, hfull, henc1, henc, hreg]
             have hbit : (if ((!e.alwaysImmediate && mask % 2 == 1) && !e.alwaysImmediate) = true then 1 else 0) + 2 * (mask / 2) = mask := by
               have hm1 := hm.1
               rcases Nat.mod_two_eq_zero_or_one mask with hmod | hmod <;> cases hai : e.alwaysImmediate <;>
